@@ -399,7 +399,7 @@ pub fn property() -> Property {
         subs: vec![Box::new(Sub {
             name: "llr-frames",
             rule: "configurations: systematic H by construction ([H0 | staircase] or [H0 | unit lower triangular], 2 <= r <= 12, n = p x bs with bs a multiple of 3), puncturing pattern none / AR4JA-like 1,1,1,1,0 / random with >= 1 true (may puncture information blocks), interleaver none or +-c with c a divisor of the transmitted length, BPSK or 8PSK, Eb/N0 chosen for an expected sigma of 0.10-0.18 (BPSK) or 0.03-0.06 (8PSK), through BerTest::new or BerTestBuilder; a probe DecoderFactory records every LLR vector and answers Err with one systematic bit flipped. Oracles per frame: length n; punctured positions bit-exactly +0.0, all others finite and non-zero; signs equal the own systematic re-encoding of the first k sign bits (or, when information blocks are punctured, extend to a codeword by an own GF(2) solve); reported k, N_cw, N, rate. Noise: received samples recovered from the LLRs (BPSK exactly, 8PSK by Gauss-Newton inversion of the own exact LLR function) with the expected sigma computed from (k, N after puncturing, bits per symbol, Eb/N0); mean, variance (Wilson-Hilferty), <w,s> scale statistic, lag-1 and re/im correlation within +-7 sigma once >= 5000 samples were collected. Non-trivial = puncturing and interleaving both present, or 8PSK with either; inner = frames examined",
-            cases: |t| t.pick(300, 12_000),
+            cases: |t| t.pick(500, 20_000),
             strategy,
             check,
             health: &[("puncturing+interleaving", 0.25), ("8PSK", 0.40), ("backward-interleaver", 0.20)],
